@@ -170,6 +170,12 @@ def main():
             body = ".union [" + ", ".join(str(i) for i, _ in d[2]) + "] [" + ", ".join(lref(t) for _, t in d[2]) + "]"
         L.append(f"def S.{n} : Schema := {body}")
     L.append("")
+    L.append("/-- union item ids by name -/")
+    for n in order:
+        if kind(n) == "union":
+            for i, t in decls[n][2]:
+                L.append(f"def U.{n}.{t} : Nat := {i}")
+    L.append("")
     L.append("/-- every declared type, by name -/")
     L.append("def all : List (String × Schema) := [")
     L.append(",\n".join(f'  ("{n}", S.{n})' for n in order))
